@@ -847,7 +847,7 @@ public:
 								   static_cast<NiRef*>(this),
 								   stream.GetMode() == NiStreamReversible::Mode::Writing);
 		NIFLY_VERIF_ANNOUNCE(verif::K_REF, 4);
-		stream.Sync(reinterpret_cast<char*>(&base::index), 4);
+		stream.Sync(reinterpret_cast<char*>(&this->index), 4);
 	}
 #else
 	void Sync(NiStreamReversible& stream) { stream.Sync(base::index); }
